@@ -151,7 +151,10 @@ impl<'a> ExpressionEvaluator<'a> {
                 ))])
             }
             BoundExpression::Exists { query, negated } => {
-                todo!("Subquery evaluation is not yet implemented")
+                // An ordinary error of the statement: a panic here would kill the worker thread
+                Err(EvaluationError::InvalidExpression(
+                    "subquery evaluation is not supported".to_string(),
+                ))
             }
             BoundExpression::InList {
                 expr,
@@ -183,14 +186,20 @@ impl<'a> ExpressionEvaluator<'a> {
                 Ok(vec![DataType::Bool(Bool(found != *negated))])
             }
             BoundExpression::Subquery { query, result_type } => {
-                todo!("Subquery evaluation is not yet implemented")
+                // An ordinary error of the statement: a panic here would kill the worker thread
+                Err(EvaluationError::InvalidExpression(
+                    "subquery evaluation is not supported".to_string(),
+                ))
             }
             BoundExpression::InSubquery {
                 expr,
                 query,
                 negated,
             } => {
-                todo!("Subquery evaluation is not yet implemented")
+                // An ordinary error of the statement: a panic here would kill the worker thread
+                Err(EvaluationError::InvalidExpression(
+                    "subquery evaluation is not supported".to_string(),
+                ))
             }
             BoundExpression::Function {
                 func,
